@@ -394,7 +394,22 @@ func filesCase(t *rapid.T, root string, prog *mrogen.Program) {
 		}
 		for _, e := range led.Order {
 			if e.Written && !e.Exists() && !covered[e.Path] && e.Job != failedJob {
-				fail(t, "C14", "removed-but-not-reported", "vdr mode %s: %s (written by %s) is gone but no _vdrkill report lists it or a directory above it\n%s", mode, e.Path, e.Job, rc.describe())
+				// diagnostics: the reports of the fork the file belonged to
+				diag := ""
+				for d := filepath.Dir(e.Path); strings.HasPrefix(d, psDir); d = filepath.Dir(d) {
+					if strings.HasPrefix(filepath.Base(d), "fork") {
+						for _, n := range []string{"_vdrkill", "_vdrkill.partial"} {
+							b, err := os.ReadFile(filepath.Join(d, n))
+							diag += fmt.Sprintf("%s/%s: %v %s\n", d, n, err, stats.Trunc(string(b), 1500))
+						}
+						ents, _ := os.ReadDir(d)
+						for _, en := range ents {
+							diag += " " + en.Name()
+						}
+						break
+					}
+				}
+				fail(t, "C14", "removed-but-not-reported", "vdr mode %s: %s (written by %s) is gone but no _vdrkill report lists it or a directory above it\n%s\n%s", mode, e.Path, e.Job, diag, rc.describe())
 			}
 		}
 		// accounting, per fork
